@@ -64,6 +64,7 @@ type FuncSpec struct {
 	ModAll   bool // modifies *  (anything)
 	Loops    map[int]*LoopSpec
 	NoPanic  bool
+	Lossless bool
 	PanicOK  bool // panic-as-exit
 	Trusted  bool
 	Inline   bool
@@ -664,11 +665,19 @@ func (ss *SpecSet) ParseSpecFile(file, pkgPath string) error {
 		case "load":
 			// load <repo-relative dir>: also load that package with source (so its functions can be inlined); handled by the driver
 		case "global":
-			f := strings.Fields(rest)
+			// global NAME nonnil | global NAME assume <expr over v>
+			f := strings.SplitN(strings.TrimSpace(rest), " ", 2)
 			if len(f) != 2 {
-				panic(fmt.Errorf("%s:%d: global NAME nonnil", file, lno))
+				panic(fmt.Errorf("%s:%d: global NAME nonnil|assume expr", file, lno))
 			}
-			ss.Globals[pkgPath+"."+f[0]] = f[1]
+			what := strings.TrimSpace(f[1])
+			if what != "nonnil" {
+				if !strings.HasPrefix(what, "assume ") {
+					panic(fmt.Errorf("%s:%d: global NAME nonnil|assume expr", file, lno))
+				}
+				mustExpr(file, lno, strings.TrimPrefix(what, "assume "))
+			}
+			ss.Globals[pkgPath+"."+f[0]] = what
 		case "property":
 			ps := strings.Fields(rest)
 			if curF != nil {
@@ -726,6 +735,9 @@ func (ss *SpecSet) ParseSpecFile(file, pkgPath string) error {
 			} else {
 				panic(fmt.Errorf("%s:%d: bad loop clause", file, lno))
 			}
+		case "lossless":
+			// every narrowing integer conversion in the function must preserve the value
+			curF.Lossless = true
 		case "nopanic":
 			curF.NoPanic = true
 		case "panic-as-exit":
